@@ -329,4 +329,97 @@ Section Frame.
              destruct (create_has_at fuel rest _ (fresh_ok_start nonstr rest _) Ne _ _ P) as (b & Hb). apply (Hno b); auto.
         * discriminate.
   Qed.
+
+  (* "what was at an address not comparable with a returned address is still there" *)
+  Definition keeps (n n' : node) (hits : list hit) : Prop :=
+    forall a x, get_at a n = Some x -> (forall h, In (HAt h) hits -> comparable a h = false) -> get_at a n' = Some x.
+
+  Lemma retry_keeps visit new_elem :
+    (forall e e' h, visit e = Ok (e', h) -> keeps e e' h) ->
+    forall f es es' hits, retry_loop visit new_elem true f es = Ok (es', hits) ->
+    forall i c a' x, nth_error es i = Some c -> get_at a' c = Some x ->
+      (forall h, In (HAt h) hits -> comparable (i :: a') h = false) ->
+      exists c', nth_error es' i = Some c' /\ get_at a' c' = Some x.
+  Proof.
+    intros Vk. induction f as [|f IHf]; intros es es' hits R i c a' x Hn Hg Hc; cbn in R; [discriminate|].
+    destruct (visit_elems visit 0 es) as [[e1 g1]| | |] eqn:V; cbn in R; try discriminate.
+    destruct (visit_elems_inv _ _ _ _ _ V) as [L N].
+    destruct (N i c Hn) as (c1 & h & Fc & Hn1 & A & B). cbn in A, B.
+    destruct g1 as [|g0 gt].
+    - (* nothing returned: the element is kept entirely; then the retry on the extended list *)
+      assert (K : get_at a' c1 = Some x).
+      { eapply (Vk _ _ _ Fc); eauto. intros b Hb. destruct (A b Hb). }
+      eapply (IHf _ _ _ R i c1 a' x); eauto.
+      rewrite nth_error_app1; auto. apply nth_error_Some. congruence.
+    - inv R. exists c1. split; auto. eapply (Vk _ _ _ Fc); eauto.
+      intros b Hb. specialize (Hc _ (A b Hb)). cbn in Hc. rewrite Nat.eqb_refl in Hc. auto.
+  Qed.
+
+  Theorem create_keeps : forall fuel path n n' hits,
+    no_empty path = true -> pmc fuel path n = Ok (n', hits) -> keeps n n' hits.
+  Proof.
+    intros fuel. induction path as [|p rest IH]; intros n n' hits Ne H a x Hg Hc.
+    - cbn in H. inv H. auto.
+    - destruct a as [|i a'].
+      { (* the root: nothing of the document was returned, so it is unchanged *)
+        rewrite (create_same _ _ _ _ _ Ne H); auto. intros b Hb. specialize (Hc b Hb). destruct b; discriminate. }
+      cbn [pm] in H. apply no_empty_cons in Ne. destruct Ne as [Np Ne].
+      destruct (classify_pm p) as [j|raw| |name] eqn:Cp.
+      + destruct n as [t s v|kvs|es]; try (cbn in Hg; discriminate Hg).
+        * discriminate.
+        * cbn in Hg. destruct (nth_error es i) as [c|] eqn:Hn; [|discriminate].
+          destruct (Nat.eqb (List.length es) j && is_create (Some k)).
+          -- destruct (pmc fuel rest _) as [[e' h]| | |]; cbn in H; inv H. cbn.
+             rewrite nth_error_app1; [rewrite Hn; auto|]. apply nth_error_Some. congruence.
+          -- destruct (nth_error es j) as [e|] eqn:F; [|discriminate].
+             destruct (pmc fuel rest e) as [[e' h]| | |] eqn:P; cbn in H; inv H. cbn.
+             destruct (Nat.eq_dec i j) as [->|Nij].
+             ++ rewrite (nth_replace_same _ _ _ _ F). rewrite F in Hn. inv Hn.
+                eapply (IH _ _ _ Ne P); eauto. intros b Hb.
+                specialize (Hc _ (in_map_push j _ _ Hb)). cbn in Hc. rewrite Nat.eqb_refl in Hc. auto.
+             ++ rewrite nth_replace_other; auto. rewrite Hn; auto.
+      + destruct (split_index_name_value raw) as [[fld v]|]; [|discriminate].
+        destruct n as [t s v0|kvs|es]; try (cbn in Hg; discriminate Hg).
+        * discriminate.
+        * cbn in Hg. destruct (nth_error es i) as [c|] eqn:Hn; [|discriminate].
+          change (retry_loop _ (pm_new_elem fld v) (is_create (Some k)) fuel es)
+            with (retry_loop (visit_one fuel rest fld v) (pm_new_elem fld v) true fuel es) in H.
+          destruct (retry_loop (visit_one fuel rest fld v) (pm_new_elem fld v) true fuel es) as [[es1 h1]| | |] eqn:R;
+            cbn in H; inv H. cbn.
+          destruct (retry_keeps (visit_one fuel rest fld v) (pm_new_elem fld v)) with
+            (f := fuel) (es := es) (es' := es1) (hits := hits) (i := i) (c := c) (a' := a') (x := x)
+            as (c' & Hn' & Hg'); auto.
+          { intros e e' h Hv. unfold visit_one in Hv.
+            destruct (elem_regex parse v) as [r| | |]; cbn in Hv; try discriminate.
+            destruct (String.eqb fld "").
+            - destruct (matches r (enc e)); inv Hv; intros ? ? ? ?; auto.
+            - destruct e as [t s v0|kvs|es0]; try (inv Hv; intros ? ? ? ?; auto; fail).
+              destruct (find_field fld kvs) as [y|]; [|inv Hv; intros ? ? ? ?; auto].
+              destruct (matches r (enc y)); [|inv Hv; intros ? ? ? ?; auto].
+              eapply IH; eauto. }
+          rewrite Hn'. auto.
+      + destruct n as [t s v|kvs|es]; try (cbn in Hg; discriminate Hg).
+        * discriminate.
+        * cbn in Hg. destruct (nth_error es i) as [c|] eqn:Hn; [|discriminate].
+          destruct (visit_elems (pmc fuel rest) 0 es) as [[es1 h1]| | |] eqn:V; cbn in H; inv H. cbn.
+          destruct (visit_elems_inv _ _ _ _ _ V) as [L N].
+          destruct (N i c Hn) as (c1 & h & Fc & Hn1 & A & B). cbn in A. rewrite Hn1.
+          eapply (IH _ _ _ Ne Fc); eauto. intros b Hb.
+          specialize (Hc _ (A b Hb)). cbn in Hc. rewrite Nat.eqb_refl in Hc. auto.
+      + rewrite (classify_field_nonempty _ _ Np Cp) in H.
+        destruct n as [t s v|kvs|es]; try (cbn in Hg; discriminate Hg).
+        * cbn in Hg. destruct (nth_error kvs i) as [[k0 c]|] eqn:Hn; cbn in Hg; [|discriminate].
+          destruct (find_field name kvs) as [y|] eqn:F.
+          -- destruct (pmc fuel rest y) as [[y' h]| | |] eqn:P; cbn in H; inv H. cbn.
+             destruct (set_first_nth name y' kvs y F) as [(k1 & A & B) C].
+             destruct (Nat.eq_dec i (index_of_key name kvs)) as [->|Nij].
+             ++ rewrite B. cbn. rewrite A in Hn. inv Hn.
+                eapply (IH _ _ _ Ne P); eauto. intros b Hb.
+                specialize (Hc _ (in_map_push _ _ _ Hb)). cbn in Hc. rewrite Nat.eqb_refl in Hc. auto.
+             ++ rewrite C; auto. rewrite Hn. cbn. auto.
+          -- cbn [is_create] in H.
+             destruct (pmc fuel rest _) as [[y' h]| | |]; cbn in H; inv H. cbn.
+             rewrite nth_error_app1; [rewrite Hn; cbn; auto|]. apply nth_error_Some. congruence.
+        * discriminate.
+  Qed.
 End Frame.
